@@ -116,7 +116,8 @@ def isHard (br : Nat → Bool) : Expr → Bool
   | .alt es => isHardAny br es
   | .group g e => isHard br e || br g
   | .look _ _ => true
-  | .repeat e _ _ _ => isHard br e
+  -- a zero-times repeat with groups inside is kept away from the automata engine (F17 repair)
+  | .repeat e _ hi _ => isHard br e || (hi == some 0 && decide (groupCount e > 0))
   | .backref _ => true
   | .atomic _ => true
   | .keepOut => true
